@@ -33,7 +33,7 @@ CHECK = {
             "next() loop, after one of {nothing, 1..40 stray next(), a stale cast(), setEndPoint only, setOriginPoint "
             "only}; non-trivial = not (double 2D range-constructor grid with only generic rays and no disturbance), "
             "i.e. outside what the unit tests cast",
-    "level_text": "exploration: the real ray caster is executed on 8e3 (quick) / 8e5 (thorough) generated grids with "
+    "level_text": "exploration: the real ray caster is executed on 2e4 (quick) / 8e5 (thorough) generated grids with "
                   "~12 / ~17 casts each on one reused caster; every returned cell sequence is checked exactly (first cell, "
                   "L1+1 cells, face-adjacent steps, in-bounds indexes, accessors, bitwise equality with a fresh caster) and "
                   "geometrically in long double (each visited cell's closed extent meets the segment, last cell contains the "
